@@ -164,6 +164,10 @@ def class_state_stores(f, model):
 
 
 def check(ctx, report):
+    # a rendering shows every item the object holds: two objects that differ in a repeated item do not render alike; rule shared with C10.R16
+    from .c10 import no_item_collapse
+    no_item_collapse(ctx, report, RULE='C14.R22',
+                     title='renderings (_asdict, __str__, as_json / as_markdown helpers) show every item of a stored sequence: no de-duplication on the way')
     model = ctx.model
     report.rule('C14.R1', 'no iteration over a possibly set typed value without sorted()')
     report.rule('C14.R2', 'no serialiser function stores to class level or module level state')
